@@ -216,6 +216,18 @@ func main() {
 	}
 	start := time.Now()
 	bin := buildEngine(root, spec.Engine)
+	if spec.Engine == "procsim" {
+		// The helper process links the real daemon lock from /repo.
+		helper := filepath.Join(root, ".build", "procsim-helper")
+		cmd := exec.Command(goTool, "build", "-tags", "verif", "-o", helper, "./engines/procsim/helper")
+		cmd.Dir = root
+		cmd.Env = goEnv()
+		if b, err := cmd.CombinedOutput(); err != nil {
+			fmt.Printf("%s\n", b)
+			trouble("build of the procsim helper failed: %v", err)
+		}
+		os.Setenv("VERIF_HELPER", helper)
+	}
 	dir, err := os.MkdirTemp(shm(), "verif-check-"+prop+"-")
 	if err != nil {
 		trouble("cannot create job directory: %v", err)
